@@ -2,6 +2,8 @@ import CoercionModel.Proofs.Attempts
 import CoercionModel.Model.Skeletons
 import CoercionModel.Generated.F10
 import CoercionModel.Proofs.TranslatedExec
+import CoercionModel.Model.SkeletonsGlue
+import CoercionModel.Generated.F15
 set_option linter.unusedSimpArgs false
 /-
   C05 — Attempts: at most Retries+1 calls, stop on success/permanent, all recorded.
@@ -219,5 +221,9 @@ theorem retry_loop_follows_exec (sc : Nat → Outcome) (fuel : Nat) (s : St) :
        | .permanent => (s', true)
        | .retry => loop sc fuel s') :=
   TranslatedExec.loop_follows_ret sc fuel s
+
+/-- the glue code this property's campaigns rest on (group `attemptGlue` of Model/SkeletonsGlue: code no model mirrors) still has
+    the shape it was read with (regenerated from /repo on every run) -/
+theorem facts_glue_skeleton : Generated.F15.attemptGlue = SkeletonsGlue.attemptGlue := by rfl
 
 end Coercion.C05
